@@ -214,6 +214,32 @@ op('check_equal_languages_words_dfa', ['words', 'dfa'], lambda L, D: lg.check_eq
 op('check_equal_languages_dfa_words', ['dfa', 'words'], lambda D, L: lg.check_equal_languages(D, L, 2), d_feedback)
 op('language_reverse_words', ['words'], la.language_reverse, d_value)
 op('concatenation_words', ['words', 'words'], la.concatenation, d_value)
+op('parse_printed_tm', ['tm'], lambda T: ta.parse_tm(ta.print_tm(T)), d_none, out='tm')      # a machine as the parser builds it (defaultdict transitions)
+op('parse_printed_nfa', ['nfa'], lambda N: na.parse_nfa(na.print_nfa(N)), d_fa, out='nfa')
+op('parse_printed_pda', ['pda'], lambda P: pa.parse_pda(pa.print_pda(P)), d_pda, out='pda')
+
+
+def _incomplete_answer(N):
+    D = na.nfa_to_dfa(N)
+    A = _as_nfa(D)
+    keys = sorted(k for k, T in A.delta.items() if T)
+    if keys:
+        del A.delta[keys[0]]          # the answer of a student who forgot one transition
+    return A
+
+
+def _check_twice(N):
+    A = _incomplete_answer(N)
+    out = []
+    for _ in range(2):                              # the same answer object, checked twice
+        try:
+            out.append(bool(nbn.check_nfa_to_dfa_answer(N, A)))
+        except Exception:
+            out.append(True)                        # the public checker prints 'Error: ...' for any exception: not OK
+    return out
+
+
+op('check_nfa_to_dfa_answer_twice', ['nfa'], _check_twice, d_value)
 # printer -> parser round trips (the pipeline the notebook generator uses)
 op('reparse_dfa', ['dfa'], lambda D: da.parse_dfa(da.print_dfa(D)), d_fa)
 op('reparse_nfa', ['nfa'], lambda N: na.parse_nfa(na.print_nfa(N)), d_fa)
@@ -508,7 +534,13 @@ def gen_session(rng, n_calls):
     for _ in range(rng.randint(2, 3)):
         make(_simple_nfa(rng, sigma, used))
     for _ in range(rng.randint(1, 2)):
-        a = genpda.needle_pda(rng) if rng.random() < 0.3 else genpda.abstract_pda(rng, nmax=3, tmax=5)
+        r0 = rng.random()
+        if r0 < 0.3:
+            a = genpda.needle_pda(rng)
+        elif r0 < 0.4:
+            a = genpda.big_closure_pda(rng, depth=rng.choice([9, 10]), needle=True)     # 1534 / 3070 configurations: beyond the default limit
+        else:
+            a = genpda.abstract_pda(rng, nmax=3, tmax=5)
         s, _r = genfa.rename(a, rng, eps_choices=('_', 'ε'))
         m = dict(zip(sorted(s['Sigma']), sigma + [c for c in 'uvw' if c not in sigma]))
         # keep the session alphabet: map input symbols onto sigma (cyclically)
@@ -621,6 +653,16 @@ def gen_cases(rng, tier, rnd):
 
 # ------------------------------------------------------------------ execution (inside the forked child)
 
+def _ambient():
+    from gambatools.global_settings import GambaTools
+    return [GambaTools.pda_epsilon_closure_max_iterations, GambaTools.enable_logging]
+
+
+def _restore(k):
+    from gambatools.global_settings import GambaTools
+    GambaTools.pda_epsilon_closure_max_iterations, GambaTools.enable_logging = k
+
+
 def _size_ok(o):
     Q = getattr(o, 'Q', None)
     if Q is not None and len(Q) > MAX_STATES:
@@ -707,6 +749,9 @@ def run_case(case, env):
             ctx['stdout'] = buf.getvalue()
             d = d_verdict(None, ctx) if st == 'ok' else ('timeout' if st == 'timeout' else 'exc:' + val.split(':')[0])
             site = step['name']
+            if _ambient() != [1000, bool(case.get('logging'))]:
+                out['viol'].append(viol('ambient-setting-changed', site, {'step': idx, 'after': _ambient()}))
+                _restore([1000, bool(case.get('logging'))])
             if idx in solo:
                 out['solo_inputs'][str(idx)] = {'op': 'text_check', 'name': step['name'], 'texts': step['texts'], 'args': [], 'params': {}, 'sigma': case['sigma']}
             out['hist']['verdict_' + d.split(':')[0]] = out['hist'].get('verdict_' + d.split(':')[0], 0) + 1
@@ -749,7 +794,18 @@ def run_case(case, env):
                 if any(not rpda.closure_sizes(before[ops[0]], w, 1000)[1] for w in ws):
                     out['notes'][str(idx)] = ['closure-truncated']
                     out['probes']['pda_call_with_truncated_closure'] = 1
+            knobs_before = _ambient()
             d, st, val, ticks = _run_call(env, o, args, step['params'], ctx)
+            if _ambient() != knobs_before:
+                out['viol'].append(viol('ambient-setting-changed', site, {'step': idx, 'before': knobs_before, 'after': _ambient()}))
+                _restore(knobs_before)
+            if idx in solo and d not in ('timeout',) and not d.startswith('exc:RecursionError'):
+                # shortest possible history: the very same call again, same objects, same process
+                d2, st2, val2, ticks2 = _run_call(env, o, args, step['params'], ctx)
+                ticks += ticks2
+                out['probes']['repeated_calls'] = out['probes'].get('repeated_calls', 0) + 1
+                if d2 != d and d2 != 'timeout':
+                    out['viol'].append(viol('repeated-call-differs', site, {'step': idx, 'first': d, 'second': d2}))
             if st == 'ok' and 'id' in step and val is not None and _size_ok(val):
                 pool[step['id']] = val
             if any(a in used_before for a in ops) or any('spec' not in case['steps'][_index_of(case, a)] for a in ops):
